@@ -189,11 +189,12 @@ def check_exec(ck: Check):
 
 NOP_SETS = [
     [r"^CALL.*"], [r"^call\s+\w+", r"^grant\b"], [r"^(call|grant)\b.*", r"^insert into (\w+) select \* from \1\b"], [r"(?x) ^insert \s into \s audit_log"],
-    [r"^alter session", r"(?i)^create\s+stage"], [r".*\bpurge\b"], [r"^SELECT 'skip'"], [r"^insert into c16_t values \(9"], [],
+    [r"^alter session", r"(?i)^create\s+stage"], [r".*\bpurge\b"], [r"^SELECT 'skip'"], [r"^insert into c16_t values \(9"], [r"alter\s+session\s", r"^CALL.*"], [],
 ]
 NOP_STMTS = ["call refresh_stats()", "CALL x(1)", "grant select on t to r", "insert into c16_t select * from c16_t", "insert into audit_log values (1)",
              "alter session set x = 1", "create stage s1", "select 1 as purge", "select 'skip'", "insert into c16_t values (9, 'nine')", "insert into c16_t values (8, 'eight')",
-             "select k from c16_t", "  call padded()", "\n    call refresh_stats();\n", "select 'call'", "-- c\ncall after_comment()"]
+             "select k from c16_t", "  call padded()", "\n    call refresh_stats();\n", "select 'call'", "-- c\ncall after_comment()",
+             "insert into c16_t values (7, 'line one\nCall me maybe')", "insert into c16_t values (6, 'please alter session now')"]
 SUCCESS = [("str:Statement executed successfully.",)]
 
 
